@@ -96,6 +96,32 @@ static std::string hinc_json(const HipView& a, const HipView& b) {
   return x.s;
 }
 
+static bool is_ooo(const hll_sketch& s) { return (view(s, false).flags & 16) != 0; }
+// get_result in all three types from the union as it is (no estimate / bound query in between) and from a COPY of the union on
+// which get_composite_estimate() was called first (the deferred KxQ / cur-min rebuild has run): the six results must describe the
+// same sketch - equal composite and in-order estimates and bounds up to 10^-12 (dq: pairwise relative differences in that unit)
+static void emit_results3(int p, const hll_union& u) {
+  std::vector<hll_sketch> rs;
+  for (int t : T3) rs.push_back(u.get_result(tt(t)));
+  hll_union v(u);
+  (void)v.get_composite_estimate();
+  for (int t : T3) rs.push_back(v.get_result(tt(t)));
+  auto rel = [](double a, double b) -> long long { double m = std::max(std::fabs(a), std::fabs(b)); if (m == 0) return 0; double d = std::fabs(a - b) / m * 1e12; return d > 1e9 ? 1000000000LL : (long long)std::llround(d); };
+  std::string o = "[", dq = "[";
+  for (size_t a = 0; a < rs.size(); a++) {
+    if (a) { o += ","; dq += ","; }
+    o += proj(9, rs[a]);
+    dq += "[";
+    for (size_t b = 0; b < rs.size(); b++) {
+      if (b) dq += ",";
+      dq += "[" + std::to_string(rel(rs[a].get_composite_estimate(), rs[b].get_composite_estimate())) + "," + std::to_string(rel(rs[a].get_estimate(), rs[b].get_estimate()))
+          + "," + std::to_string(rel(rs[a].get_lower_bound(3), rs[b].get_lower_bound(3))) + "," + std::to_string(rel(rs[a].get_upper_bound(3), rs[b].get_upper_bound(3))) + "]";
+    }
+    dq += "]";
+  }
+  Ev e("UResults3"); e.i("u", p).raw("rs", o + "]").raw("dq", dq + "]"); e.i("lgk", u.get_lg_config_k()).b("empty", u.is_empty()); e.emit();
+}
+
 static void scalars(Ev& e, const hll_union& u) { e.i("lgk", u.get_lg_config_k()).b("empty", u.is_empty()); }
 
 int main(int argc, char** argv) {
@@ -138,7 +164,7 @@ int main(int argc, char** argv) {
         for (int i = 0; i < 2; i++) {
           bool rvalue = (lg + i) % 2 == 1;
           if (rvalue) { hll_sketch tmp(*sk[i]); u.update(std::move(tmp)); } else u.update(*sk[i]);
-          Ev e("UUpdate"); e.i("u", 0).i("src", i).b("rvalue", rvalue); scalars(e, u); e.emit();
+          Ev e("UUpdate"); e.i("u", 0).i("src", i).b("rvalue", rvalue).b("srcOoo", is_ooo(*sk[i])); scalars(e, u); e.emit();
         }
         for (int t : {T3[(lg + (int)seed) % 3], 8}) { hll_sketch r = u.get_result(tt(t)); Ev e("UResult"); e.i("u", 0).i("type", t).raw("r", proj(9, r)); scalars(e, u); e.emit(); }
         { Ev e("UEst"); e.i("u", 0); est_fields(e, u); scalars(e, u); e.emit(); }
@@ -354,8 +380,16 @@ int main(int argc, char** argv) {
       if (p > 0 || g.chance(50)) for (size_t a = order.size(); a > 1; a--) std::swap(order[a - 1], order[g.below(a)]);
       long reset_at = with_reset ? (long)g.below(order.size() + 1) : -1;
       int obs_pct = high ? 12 : (raw.size() > 20 ? 8 : 35);
+      int last_raw = -1;
       for (size_t q = 0; q <= order.size(); q++) {
-        if ((long)q == reset_at) { u.reset(); Ev e("UReset"); e.i("u", p); scalars(e, u); e.emit(); }
+        if ((long)q == reset_at) {
+          u.reset(); { Ev e("UReset"); e.i("u", p); scalars(e, u); e.emit(); }
+          if (last_raw >= 0) {     // the very next update after reset(): the item the union saw last
+            const Item& it = raw[last_raw]; Coupon c{0, 0}; bool counted = ref_coupon(it, c); do_update(u, it);
+            Ev e(counted ? "UItem" : "UItemIgnored"); e.i("u", p).str("ty", TYPES[it.type]);
+            if (counted) e.raw("c", "[" + std::to_string(c.addr) + "," + std::to_string(c.val) + "]"); scalars(e, u); e.emit();
+          }
+        }
         // observers, at random, between any two updates (each is an event of its own: get_estimate & co. have side effects)
         while (g.chance(obs_pct)) {
           int ob = (int)g.below(10);
@@ -379,11 +413,11 @@ int main(int argc, char** argv) {
           if (rst_seg && p > 0) sid = 13 + o;
           const hll_sketch& src = sid >= 13 ? *dsk[sid - 13] : (sid >= NIN ? *rs[sid - NIN] : *in[o]);
           if (rvalue) { hll_sketch tmp(src); u.update(std::move(tmp)); } else u.update(src);
-          Ev e("UUpdate"); e.i("u", p).i("src", sid).b("rvalue", rvalue); scalars(e, u);
+          Ev e("UUpdate"); e.i("u", p).i("src", sid).b("rvalue", rvalue).b("srcOoo", is_ooo(src)); scalars(e, u);
           if (sid >= NIN) e.b("restored", true);
           e.emit();
         } else {
-          const Item& it = raw[-o - 1];
+          const Item& it = raw[-o - 1]; last_raw = -o - 1;
           Coupon c{0, 0}; bool counted = ref_coupon(it, c);
           HipView hb = hip_view(u);
           do_update(u, it);
@@ -394,6 +428,7 @@ int main(int argc, char** argv) {
         }
       }
       // final result in every type, then the estimates
+      if (!high) emit_results3(p, u);
       for (int t : T3) { if (high && t != 8 && t != T3[p]) continue; hll_sketch r = u.get_result(tt(t)); Ev e("UResult"); e.i("u", p).i("type", t).raw("r", proj(9, r)); scalars(e, u); e.emit(); }
       { Ev e("UEst"); e.i("u", p); est_fields(e, u); scalars(e, u); e.emit(); }
     }
@@ -409,7 +444,7 @@ int main(int argc, char** argv) {
           int sid = (w == 0 ? 10 : 19) + n; const hll_sketch& src = w == 0 ? *ures[n] : *urst[n];
           bool rvalue = (n + w) % 2 == 0;
           if (rvalue) { hll_sketch tmp(src); ux[w]->update(std::move(tmp)); } else ux[w]->update(src);
-          Ev e("UUpdate"); e.i("u", 4 + w).i("src", sid).b("rvalue", rvalue); scalars(e, *ux[w]); if (w) e.b("restored", true); e.emit();
+          Ev e("UUpdate"); e.i("u", 4 + w).i("src", sid).b("rvalue", rvalue).b("srcOoo", is_ooo(src)); scalars(e, *ux[w]); if (w) e.b("restored", true); e.emit();
         }
         { hll_sketch r = ux[w]->get_result(HLL_8); Ev e("UResult"); e.i("u", 4 + w).i("type", 8).raw("r", proj(9, r)); scalars(e, *ux[w]); if (w) e.b("restored", true); e.emit(); }
         { Ev e("UEst"); e.i("u", 4 + w); est_fields(e, *ux[w]); scalars(e, *ux[w]); if (w) e.b("restored", true); e.emit(); }
@@ -434,16 +469,27 @@ int main(int argc, char** argv) {
         res[p].reset(new hll_sketch(un[p]->get_result(tt(t))));
         Ev e("UResultAs"); e.i("u", p).i("type", t).i("dst", 10 + p).raw("r", proj(10 + p, *res[p])); scalars(e, *un[p]); e.emit();
       }
-      uint8_t lg4 = (uint8_t)(high || g.chance(50) ? lgmax : g.range(minlgk, maxlgk));
+      uint8_t lg4 = (uint8_t)(high || g.chance(35) ? lgmax : g.range(minlgk, maxlgk));
+      // out-of-order operands (results) with lg_k ABOVE the union's lg_max_k, arriving at an empty or coupon-mode gadget
+      if (!high && g.chance(50)) lg4 = (uint8_t)std::max(minlgk, (long)res[0]->get_lg_config_k() - g.range(1, 2));
       hll_union u4(lg4);
       { Ev e("UNew"); e.i("u", 3).i("lgmaxk", lg4); scalars(e, u4); e.emit(); }
+      if (g.chance(50)) {       // a few raw items first: the out-of-order operands then meet a coupon-mode gadget
+        long nr = g.range(1, 5);
+        for (long j = 0; j < nr; j++) {
+          Item it = draw(g, universe); Coupon c{0, 0}; bool counted = ref_coupon(it, c); do_update(u4, it);
+          Ev e(counted ? "UItem" : "UItemIgnored"); e.i("u", 3).str("ty", TYPES[it.type]);
+          if (counted) e.raw("c", "[" + std::to_string(c.addr) + "," + std::to_string(c.val) + "]"); scalars(e, u4); e.emit();
+        }
+      }
       std::vector<int> order = {10, 11, 12, (int)g.below(nin)};
       for (size_t a = order.size(); a > 1; a--) std::swap(order[a - 1], order[g.below(a)]);
       for (int sid : order) {
         const hll_sketch& src = sid >= 10 ? *res[sid - 10] : *in[sid];
         bool rvalue = g.chance(45);
         if (rvalue) { hll_sketch tmp(src); u4.update(std::move(tmp)); } else u4.update(src);
-        { Ev e("UUpdate"); e.i("u", 3).i("src", sid).b("rvalue", rvalue); scalars(e, u4); e.emit(); }
+        { Ev e("UUpdate"); e.i("u", 3).i("src", sid).b("rvalue", rvalue).b("srcOoo", is_ooo(src)); scalars(e, u4); e.emit(); }
+        if (g.chance(50)) emit_results3(3, u4);
         if (g.chance(40)) { int t = T3[g.below(3)]; hll_sketch r = u4.get_result(tt(t)); Ev e("UResult"); e.i("u", 3).i("type", t).raw("r", proj(9, r)); scalars(e, u4); e.emit(); }
         if (g.chance(25)) { Ev e("UEst"); e.i("u", 3); est_fields(e, u4); scalars(e, u4); e.emit(); }
       }
